@@ -1,5 +1,6 @@
 import LolHtml.Thm.Full6
 import LolHtml.Lemmas.RunRelInv
+import LolHtml.Lemmas.GuardCompose
 /-!
 # Package `full`, part 7 — `Full_no_panic` for ALL configurations (tag-scanner mode included): the reduction
 
@@ -89,5 +90,28 @@ theorem Full_args_guardFree (cfg : Cfg) (settings : Settings) :
   obtain ⟨a1, a2⟩ := args_valid_run (Dk := DkFull cfg) ht argSite_T2 argSite_ne (fullCtl_argsCtl cfg) (FullSt.init cfg) settings
     (Chunk.R.init_DO cfg) pre hu
   exact ⟨fun data s1 chunk hcf => (a1 data s1 chunk hcf).1, a2.1⟩
+
+/-! ### with the argument part of the guard discharged -/
+
+/-- a plan whose guard is the argument guard on top of a "kind" guard `K` -/
+def argsPlan (K : ∀ cfg, SGuard (Disp (FullSt cfg))) (Inv : ∀ cfg, Disp (FullSt cfg) → Prop) (cfg : Cfg) : ScanPlan cfg :=
+  ⟨withArgs argSite (K cfg), Inv cfg⟩
+
+/-- **named hypothesis 2′ (runs)**: the kind guard alone never fires, and its errors are not the argument guard's -/
+def Full_kind_guard_free_statement (K : ∀ cfg, SGuard (Disp (FullSt cfg))) : Prop :=
+  ∀ (cfg : Cfg), (∀ inp, KFresh argSite (K cfg) inp) ∧
+    ∀ settings : Settings, GuardFree (genWorld cfg) (K cfg) (FullSt.init cfg) settings
+
+/-- **Full_no_panic_partial′.** The operations may assume valid lexemes (`TagArgsOK`, `NTLexValid`: the argument guard
+is part of the plan's guard) — that part of "the guard never fires" is proved (`guardFree_withArgs`, package inv);
+what remains at run level is the kind guard `K` alone. -/
+theorem Full_no_panic_partial' (K : ∀ cfg, SGuard (Disp (FullSt cfg))) (Inv : ∀ cfg, Disp (FullSt cfg) → Prop)
+    (h1 : Full_scan_ops_statement (argsPlan K Inv)) (h2 : Full_kind_guard_free_statement K) :
+    Full_no_panic_statement := by
+  refine Full_no_panic_partial (argsPlan K Inv) h1 ?_
+  intro cfg settings
+  have ht : ArgsTable (genWorld cfg).tbl (computeCert Gen.Syntax.table) (computeRaw Gen.Syntax.table) := C15.C15_argsTable_gen
+  exact guardFree_withArgs (Dk := DkFull cfg) ht argSite_T2 argSite_ne (fullCtl_argsCtl cfg) (FullSt.init cfg) settings
+    (Chunk.R.init_DO cfg) (h2 cfg).1 ((h2 cfg).2 settings)
 
 end LolHtml.Thm.Full
